@@ -50,7 +50,8 @@ CLAIMS = {'C01': {'note': 'Not decided (SQL): the upsert input=input+excluded.in
          'text': 'Sequential half of idempotency, proved on forgeLog/forgeLogRetry/fetchLogWithIK/runLog: an idempotency hit or a hash mismatch runs no fn and commits nothing; a write commits at '
                  "most once per call also across the retry loop; the retry never reuses a closed transaction handle; the stored log carries the request's key; revert's metadata helper does not "
                  "mutate the request input that is hashed afterwards. An idempotency hit (from fetchLogWithIK, forgeLog and the retry path forgeLogRetry alike) carries a log with the request's key "
-                 'whose stored hash is empty (legacy) or equals the hash of the request input; a different hash is an error.'},
+                 'whose stored hash is empty (legacy) or equals the hash of the request input; a different hash is an error. Round 9: assertions to a type parameter are of unknown outcome (F34: a '
+                 'key stored without hash and reused on another write kind panicked in fetchLogWithIK).'},
  'C15': {'note': 'Assumed: Store.RevertTransaction returns modified=false for an already reverted transaction (conditional UPDATE; raced behaviour is a database property); metadata.Metadata.Merge '
                  'lets its argument override (go-libs, mergo). Not covered: that balances return to their previous values in SQL.',
          'ref': 'DESIGN.md §4 C15',
@@ -147,7 +148,8 @@ CLAIMS = {'C01': {'note': 'Not decided (SQL): the upsert input=input+excluded.in
                  'nil and the request is not a dry run; Commit invokes the queued callbacks only after the underlying Commit returned nil and returns nil iff it did; Rollback drops them; BeginTX '
                  "yields hasTx=true and LockLedger inherits hasTx (finding F2, fixed). Together with C07's forgeLog contract (nil only after commit) no event precedes or lacks its commit on these "
                  'paths. controllerFacade.handleState (first write on an initializing ledger): the write runs on the locked child of the BeginTX controller, the BeginTX controller — the one holding '
-                 'the queued events — is the one committed, nothing is committed on error or dry run, and the ledger is marked in-use only after that commit succeeded.'},
+                 'the queued events — is the one committed, nothing is committed on error or dry run, and the ledger is marked in-use only after that commit succeeded. Round 9: an idempotency hit is '
+                 'not a write — the seven ControllerWithEvents write methods publish nothing for it (F33: they did).'},
  'C32': {'note': 'Assumed (outside the subset: goroutines, select, channels, worker pool): Bulker.run runs elements on the controller it is given, reports hasError iff an element failed, and stops '
                  'after the first failure unless continueOnFailure; FIFO order of a one-worker pool; UnmarshalBulkElementPayload yields the payload type matching the action (precondition of '
                  'processElement).',
@@ -192,7 +194,8 @@ CLAIMS = {'C01': {'note': 'Not decided (SQL): the upsert input=input+excluded.in
                  'establish it (F25: client-supplied volumes crashed the import goroutine). Cursors (round 8): the paginator constructors require a page size that cannot wrap and, for column '
                  'cursors, a date or numeric column; Paginate is verified to establish both for queries decoded from client cursors (F26). Error classes (round 8): every error a ResolveFilter '
                  'handler returns is storage/common.ErrInvalidQuery or ErrMissingFeature, the classes the API maps to 400 (F27: a second ErrInvalidQuery type and plain errors were answered with '
-                 '500). Date filters: TypeDate.ValidateValue accepts exactly strings that parse, and NormalizeDateFilterValue then returns no (unwrapped, 500) error.'}}
+                 '500). Expansions (round 9): unknown expand values never reach the SQL text and refused expansions are invalid-query errors (F31). Date filters: TypeDate.ValidateValue accepts '
+                 'exactly strings that parse, and NormalizeDateFilterValue then returns no (unwrapped, 500) error.'}}
 NA = {'C04': 'Effective volumes are computed by the PL/pgSQL triggers set_effective_volumes / update_effective_volumes; no Go function computes them, so no contract on the Go code can state or decide the '
         'property.',
  'C05': 'Point-in-time / window reads are SQL text (first_value ... over, date predicates); a contract can say which string was built, not what Postgres returns for it.',
